@@ -560,6 +560,21 @@ def check_cursor(ctx: Context, rep, rule: str) -> None:
         lt = norm(text(top))
         chain_ok = not any(w in lt for w in (".rev()", ".skip(", ".take(",
                                               ".filter(", ".step_by("))
+    if not maps:
+        # for a in attributes.iter() { out.push(a.attribute_bytes()...) }
+        loops = [n for n in walk_no_closure(reader.body) if kind(n, "For") and
+                 norm(text(n["iter"])) in ("attributes.iter()", "attributes",
+                                           "&attributes")]
+        if len(loops) == 1:
+            body = list(walk(loops[0]["body"]))
+            pushes = [n for n in body if kind(n, "MethodCall") and
+                      n["method"] == "push"]
+            has_bytes = any(kind(n, "MethodCall") and
+                            n["method"] == "attribute_bytes" for n in body)
+            skips = [n for n in body if n.get("k") in ("Continue", "Break",
+                                                       "If", "Match")]
+            chain_ok = len(pushes) == 1 and has_bytes and not skips
+            lt = norm(text(loops[0]))[:100]
     rep.ob(rule, chain_ok, loc=reader.loc(maps[0]) if maps else reader.loc(),
            where=reader.qual, construct=lt[:100],
            message="all attribute byte vectors are copied in stored order")
@@ -856,10 +871,20 @@ def check_static_map(ctx: Context, rep, rule: str) -> None:
                "that does not depend on the map's current content (entries "
                "are removed on __exit__, so a key derived from len() can "
                "equal the key of a live iterator and replace its state)")
-    nx = ctx.rust.fn(LIB, "static_iter::<Iterator for RustIter>::next")
+    # the look-up lives in RustIter's next() or, when that single-caller
+    # method is inlined, in __next__
+    holders = [f for key, f in ctx.rust.functions.items()
+               if key.startswith(LIB) and f.method_calls("get_mut") and any(
+                   "hash_map" in norm(text(g["recv"]))
+                   for g in f.method_calls("get_mut"))]
+    if len(holders) != 1:
+        raise AnalysisError(f"{rule}: the state look-up (hash_map.get_mut) "
+                            f"was found in {len(holders)} functions")
+    nx = holders[0]
     oi = order_index(nx)
     guards = [n for n in walk(nx.body) if kind(n, "If") and
-              norm(text(n["cond"])) == "!self.can_iterate" and any(
+              re.fullmatch(r"!(self|slf)\.can_iterate",
+                           norm(text(n["cond"]))) and any(
                   kind(x, "Return") for x in walk(n["then"]))]
     gets = nx.method_calls("get_mut")
     rep.ob(rule, bool(guards) and bool(gets) and all(
